@@ -518,9 +518,12 @@ func (w *World) cnew(m map[string]string) {
 		switch o {
 		case "h":
 			rs.hdrOpt = true
+			// the target holds something from an earlier use: the library must replace it
+			rs.hdrT = metadata.Pairs("stale-target", "h")
 			opts = append(opts, grpc.Header(&rs.hdrT))
 		case "t":
 			rs.trlOpt = true
+			rs.trlT = metadata.Pairs("stale-target", "t")
 			opts = append(opts, grpc.Trailer(&rs.trlT))
 		case "p":
 			opts = append(opts, grpc.Peer(&rs.peerT))
@@ -618,7 +621,7 @@ func (w *World) cinvoke(m map[string]string) {
 	}
 	ctx, rs.cancel = context.WithCancel(ctx)
 	name := methodName("U", r, m)
-	var trl metadata.MD
+	trl := metadata.Pairs("stale-target", "t")
 	w.logf("newcall r=%d t=%d shape=U method=%s md=%s credmd=- to=none multi=0", r, t, encStr(name), mdEnc)
 	cc := w.channelFor(t, m["via"])
 	if cc == nil {
